@@ -131,6 +131,10 @@ func (m *Manager) Reserve(addr, activeAddr net.Addr, wireBytes int) error {
 		return nil
 	}
 
+	if wireBytes < 0 {
+		return dtlserrors.ErrAntiAmplificationLimit
+	}
+
 	m.mu.Lock()
 	defer m.mu.Unlock()
 	path := m.paths[pathKey(addr)]
